@@ -37,6 +37,9 @@
 //! interleave assertion — `df.join(t0 on id).with_column(max(f) OVER (PARTITION BY id)).union(same)` fails
 //! while planning with `Internal error: Assertion failed: can_interleave(children.iter())` raised by EnsureRequirements (2 MemTable
 //! partitions, target_partitions = 1); no repair proposed.
+//! (since /repo a77f1d9 the aggregate_statistics shape below panics instead — `index out of bounds` in arrow-schema `Schema::field`
+//! reached from `AggregateStatistics::optimize` -> `ProjectionExec::replace_children`: the placeholder row now has an empty schema but a
+//! projection above still addresses its columns; both sides panic, each side runs under its own panic guard)
 //! aggregate_statistics name assertion — a global `count(x) FILTER (WHERE <folds to false>)` above
 //! another aggregate fails while planning with `Internal error: Assertion failed: col.name() == matching_name: Input field name c2 does
 //! not match with the projection expression c5` raised by the aggregate_statistics physical optimizer rule; no repair proposed.
@@ -944,14 +947,28 @@ fn evaluate_uncached(case: &Case) -> CaseResult {
         let v = Variant { mem_partitions: case.mem_partitions.clamp(1, 4), batch_rows: Some(3), target_partitions: case.target_partitions.clamp(1, 4), timeout_ms: 60_000, ..Variant::default() };
         let (case2, sql2) = (case.clone(), sql.clone());
         let obs = run_in_context(&case.tables, &v, |b| b, |ctx| async move {
-            let s = match ctx.sql(&sql2).await {
-                Ok(df) => collect(df).await,
-                Err(e) => Err(perr(e)),
-            };
-            let d = match build_df(&ctx, &case2).await {
-                Ok(df) => collect(df).await,
-                Err(e) => Err(e),
-            };
+            // each side under its own panic guard: a panic of the engine is that side's internal error (so that "both sides fail" /
+            // "the SQL side alone fails" stay what they are — nothing to compare — and a panic of the DataFrame side alone is a violation)
+            use futures::FutureExt;
+            let panicked = || -> DfErr { (false, ErrClass::Internal, "panic in code under test (location in the evidence's panic_log)".to_string()) };
+            let s = std::panic::AssertUnwindSafe(async {
+                match ctx.sql(&sql2).await {
+                    Ok(df) => collect(df).await,
+                    Err(e) => Err(perr(e)),
+                }
+            })
+            .catch_unwind()
+            .await
+            .unwrap_or_else(|_| Err(panicked()));
+            let d = std::panic::AssertUnwindSafe(async {
+                match build_df(&ctx, &case2).await {
+                    Ok(df) => collect(df).await,
+                    Err(e) => Err(e),
+                }
+            })
+            .catch_unwind()
+            .await
+            .unwrap_or_else(|_| Err(panicked()));
             Observed { sql: s, df: d }
         });
         let obs = match obs {
